@@ -109,6 +109,18 @@ def sort_specs(timeout):
     return got2 == want2 and got3 == sorted(xs, reverse=True) and got4 == sorted(xs, reverse=True)'''
     out.append(Spec("sort/ints", harness("xs: List[int]", body, pre=["len(xs) <= 3"], module_code=SORT_MODULE, warm=[([3, 1, 2],)]),
                     timeout=timeout, bound="lists of <= 3 ints (unbounded values)", meta={"kind": "sort"}))
+    body = '''    # elements that are equal (and hash alike) yet distinguishable: True / 1, False / 0; the key tells them apart
+    key = lambda v: (0 if isinstance(v, bool) else 1, v)
+    got = seq_list(SORTBY(key, vec.vector(xs)))
+    want = sorted(xs, key=key)
+    same = len(got) == len(want) and all(type(g) is type(w) and g == w for g, w in zip(got, want))
+    got2 = seq_list(SORTBY(lambda v: str(v), vec.vector(xs)))
+    want2 = sorted(xs, key=lambda v: str(v))
+    return same and len(got2) == len(want2) and all(type(g) is type(w) and g == w for g, w in zip(got2, want2))'''
+    out.append(Spec("sort-by/equal-but-distinguishable-elements", harness("xs: List[Union[bool, int]]", body,
+                                                                          pre=["len(xs) <= 3", "all(isinstance(v, bool) or 0 <= v <= 2 for v in xs)"],
+                                                                          module_code=SORT_MODULE, warm=[([True, 1, 0],)]),
+                    timeout=timeout, bound="lists of <= 3 elements over {true, false, 0, 1, 2}", meta={"kind": "sort"}))
     body = '''    ks = [POOL[i] for i in [i0, i1, i2][:n]]
     got = seq_list(SORT(vec.vector(ks)))
     want = sorted(ks, key=kkey)
